@@ -316,6 +316,20 @@ def c07_units(tier, seed):
                 viol.append({'id': '%s-%s-held-estimate' % (libname, m1), 'input': {'library': libname, 'estimate of': m1, 'then decomposed': m2, 'T': T},
                              'observed': {'S/R rel. elements at once': first, 'after the other decomposition': again, 'S/R': plain}, 'expected': 'S/R - %r both times' % sele,
                              'script': "import pgradd.ThermoChem\nfrom pgradd.GroupAdd.Library import GroupLibrary\nlib = GroupLibrary.Load(%r)\ne = lib.Estimate(lib.GetDescriptors(%r), 'thermochem')\na = e.get_SoR(%r, S_elements=True)\nlib.GetDescriptors(%r)\nprint(a, e.get_SoR(%r, S_elements=True))   # expected twice the same\n" % (libname, m1, T, m2, T)})
+    # (ii b) the structure given as a molecule object instead of text
+    for libname, smis in mols.items():
+        lib = real.load(libname, fresh=True)
+        for smi in smis[:4]:
+            n += 1
+            with real.quiet():
+                k1, d1 = real.outcome(lib.GetDescriptors, smi)
+                if k1 == 'exc':
+                    continue
+                want = real.outcome(lambda: lib.Estimate(d1, 'thermochem').get_SoR(400.0, S_elements=True))
+                got = real.outcome(lambda: lib.Estimate(lib.GetDescriptors(Chem.MolFromSmiles(smi)), 'thermochem').get_SoR(400.0, S_elements=True))
+            if want[0] == 'ok' and (got[0] != 'ok' or not real.close(got[1], want[1], 1e-12, 1e-12)) and len(viol) < 14:
+                viol.append({'id': '%s-%s-mol-object-elements' % (libname, smi), 'input': {'library': libname, 'structure': 'Chem.MolFromSmiles(%r)' % smi, 'T': 400.0}, 'observed': got, 'expected': want,
+                             'script': "import pgradd.ThermoChem\nfrom rdkit import Chem\nfrom pgradd.GroupAdd.Library import GroupLibrary\nlib = GroupLibrary.Load(%r)\nprint(lib.Estimate(lib.GetDescriptors(Chem.MolFromSmiles(%r)), 'thermochem').get_SoR(400., S_elements=True))\n" % (libname, smi)})
     # (iii) the correlations of single groups (with and without heat-capacity data), away from their reference temperature
     for libname in (['BensonGA', 'SalciccioliGA2012'] if tier == 'quick' else real.LIBS):
         lib = real.load(libname)
